@@ -414,9 +414,9 @@ inductive Pat | ok (r : Re) | bad
 /-- `function_matches(text, pattern)`: a bad pattern gives a `CELEvalError` *value* in both runners -/
 def matchesFn (a : V) (p : Pat) : PyM V :=
   match a, p with
-  | .str _, .bad => .ok .err
   | .str s, .ok r => .ok (.bool (searchM r s))
-  | _, _ => .error .typeError
+  | _, .bad => .ok .err              -- the pattern is compiled first, whatever the text is
+  | _, .ok _ => .error .typeError
 
 /-! ### logical operators on values (celtypes.logical_*) -/
 
@@ -487,6 +487,35 @@ def neRaises : V → V → Bool
   | .map _, .null => true
   | _, _ => false
 
+/-- three-valued disjunction of comparison outcomes (`reduce(logical_or, …)` in `ListType.__ne__` /
+`MapType.__ne__`) -/
+def kor (a b : PyM Bool) : PyM Bool :=
+  match a, b with
+  | .ok true, _ => .ok true
+  | _, .ok true => .ok true
+  | .ok false, .ok false => .ok false
+  | .error e, _ => .error e
+  | _, .error e => .error e
+
+mutual
+/-- Python `a != b` (`operator.ne`): `ListType.__ne__` / `MapType.__ne__` are written separately from
+`__eq__` (element-wise `!=`, three-valued `or`; a `None` operand raises); everything else is the negated `==` -/
+def vne : V → V → PyM Bool
+  | .list a, .list b => if a.length != b.length then .ok true else vneZip a b
+  | .map a, .map b => if a.length != b.length then .ok true else vneEntries a b
+  | a, b => if neRaises a b then .error .typeError else (fun x => !x) <$> veq a b
+def vneZip : List V → List V → PyM Bool
+  | x :: xs, y :: ys => kor (vne x y) (vneZip xs ys)
+  | _, _ => .ok false
+def vneEntries : List (V × V) → List (V × V) → PyM Bool
+  | [], _ => .ok false
+  | (k, v) :: rest, other =>
+      match lookup k other with
+      | .ok (some v') => kor (vne v v') (vneEntries rest other)
+      | .ok none => .ok true
+      | .error e => .error e
+end
+
 def arith (op : BOp) (a b : V) : PyM V :=
   match op, a, b with
   | .add, .int a, .int b => .int <$> IntOps.add a b
@@ -528,8 +557,7 @@ def arithErrRight (op : BOp) (a : V) : PyM V :=
 def binop (op : BOp) (a b : V) : PyM V :=
   match op with
   | .eq => if a.isErr then .ok a else if b.isErr then .ok b else (fun x => .bool x) <$> veq a b
-  | .ne => if a.isErr then .ok a else if b.isErr then .ok b
-           else if neRaises a b then .error .typeError else (fun x => .bool !x) <$> veq a b
+  | .ne => if a.isErr then .ok a else if b.isErr then .ok b else .bool <$> vne a b
   | .lt => if a.isErr then .ok a else if b.isErr then .ok b else .bool <$> vlt a b
   | .gt => if a.isErr then .ok a else if b.isErr then .ok b else .bool <$> vlt b a
   | .le => if a.isErr then .ok a else if b.isErr then .ok b else .bool <$> vle a b
